@@ -38,7 +38,7 @@ def maskWithParameters : MaskData :=
 
 def maskedLayer : LayerRecord :=
   ⟨0, 0, 4, 4, [⟨0, 6⟩, ⟨-1, 3⟩, ⟨-2, 2⟩], s8BIM, kNorm, 128, 1, flagsDefault, some maskWithParameters,
-   rangesDefault, [76, 49, 50], [⟨s8BIM, kLuni, [0, 0, 0, 1, 0, 76]⟩, ⟨s8BIM, kLnk2, [1, 2, 3]⟩]⟩
+   rangesDefault, [76, 49, 50], [⟨s8BIM, kLuni, [0, 0, 0, 1, 0, 76]⟩, ⟨s8BIM, kLnk2, [1, 2, 3, 4]⟩]⟩
 
 def plainLayer : LayerRecord :=
   ⟨1, 1, 2, 2, [⟨0, 3⟩], s8BIM, kNorm, 255, 0, flagsDefault, some ⟨0, 0, 1, 1, 0, Flags8.ofNat 0, none, none⟩,
@@ -84,5 +84,19 @@ def glmShortTail : PSD := mk ⟨some (oneRecord rangesDefault), some glmDefault,
 def lamTaggedNone : PSD := mk ⟨some (oneRecord rangesDefault), some glmDefault, none⟩ img20
 /-- `LayerAndMaskInformation(None, None, TaggedBlocks())` -/
 def lamEmptyDictOnly : PSD := mk ⟨none, none, some []⟩ img20
+
+/-! ### documents outside `SpecShaped` (C03) -/
+
+def kArtd : B := [97, 114, 116, 100]       -- "artd": 8-byte length for psd-tools, not in the specification's list
+def hdr2 : Header := ⟨s8BPS, 2, 3, 1, 1, 8, 3⟩
+
+/-- a layer record with an odd-length raw tagged block (`TaggedBlock(key=b'abcd', data=b'xyz')`) -/
+def oddBlockInRecord : PSD :=
+  mk ⟨some ⟨1, some [⟨0, 0, 0, 0, [⟨0, 5⟩], s8BIM, kNorm, 255, 0, flagsDefault, none, rangesDefault, [],
+        [⟨s8BIM, [97, 98, 99, 100], [120, 121, 122]⟩]⟩], some [[⟨0, [1, 2, 3]⟩]]⟩, some glmDefault, some []⟩ img20
+
+/-- a PSB with a global `artd` block -/
+def unconfirmedKeyPsb : PSD :=
+  ⟨hdr2, [], [], ⟨some ⟨0, none, none⟩, some glmDefault, some [⟨s8BIM, kArtd, [1, 2, 3, 4]⟩]⟩, img20⟩
 
 end PsdVerif.Psd.Samples
